@@ -15,6 +15,9 @@ type Options struct {
 	// SwitchCost is the deviation cost of choosing another than the lowest-numbered enabled thread when the running
 	// thread blocks or ends. 0 = free (classic preemption bounding); 1 = every departure from the canonical schedule counts.
 	SwitchCost int
+	// UnlockPoints: Mutex.Unlock is a scheduling point too. Not needed for code whose shared accesses all happen under a
+	// lock; with it a thread can be preempted between releasing a lock and its next (possibly unsynchronised) access.
+	UnlockPoints bool
 }
 
 // Result of one controlled execution.
@@ -49,7 +52,7 @@ func RunWith(prefix []int, o Options, body func(), onPoint func()) *Result {
 	if o.MaxSteps == 0 {
 		o.MaxSteps = 200000
 	}
-	s := &Sched{prefix: prefix, finished: make(chan struct{}), maxAdv: o.MaxTimeAdvances, maxSteps: o.MaxSteps, logOn: o.Log, closed: map[uintptr]bool{}, OnPoint: onPoint, switchCost: o.SwitchCost}
+	s := &Sched{prefix: prefix, finished: make(chan struct{}), maxAdv: o.MaxTimeAdvances, maxSteps: o.MaxSteps, logOn: o.Log, closed: map[uintptr]bool{}, OnPoint: onPoint, switchCost: o.SwitchCost, unlockPoints: o.UnlockPoints}
 	S = s
 	s.mu.Lock()
 	t := s.startThread("main", body)
